@@ -463,6 +463,22 @@ impl Hasher for THasher {
 
 pub type Cache = lru_mem::LruCache<TKey, TVal, TBuild>;
 
+/// Runs harness-side code that may reach instrumented callbacks without
+/// disturbing the callback counters or the fuel.
+pub fn quiet<R>(f: impl FnOnce() -> R) -> R {
+    let saved_fuel = fuel();
+    set_fuel(None);
+    let saved = counts();
+    let r = f();
+    COUNTS.with(|c| {
+        for i in 0..NCB {
+            c[i].set(saved[i])
+        }
+    });
+    set_fuel(saved_fuel);
+    r
+}
+
 /// size_of::<Entry<TKey, TVal>>() as seen by lru-mem (entry_size of a pair
 /// without heap), measured without disturbing counters or fuel.
 pub fn entry_overhead() -> usize {
